@@ -2,8 +2,10 @@ package harness
 
 import (
 	"fmt"
+	"os"
 	"sync"
 	"testing"
+	"time"
 
 	tq "github.com/facebookincubator/tacquito"
 	"verif/harness/ev"
@@ -29,6 +31,9 @@ type c08Step struct {
 	// Replies > 1: the handler sends this many replies to the one request (a banner, then the prompt);
 	// each takes the next sequence number, and all of them count as sent
 	Replies int `json:"replies,omitempty"`
+	// PauseMs: real time that passes before this packet is sent (the scripted connection has no clock of
+	// its own, so nothing but the server's own idea of time can make a difference)
+	PauseMs int `json:"pause_ms,omitempty"`
 }
 
 type c08Case struct {
@@ -222,6 +227,10 @@ func runC08(t failer, c c08Case) {
 		h.script = s
 		h.mu.Unlock()
 		wire := model.Frame(secret, model.Header{Version: 0xc0, Type: s.Type, Seq: s.Seq, Session: s.Session}, consistentBody(s.Type, 8, []byte{1}))
+		if s.PauseMs > 0 {
+			ev.Class("real-time-passes-while-sessions-wait")
+			time.Sleep(time.Duration(s.PauseMs) * time.Millisecond)
+		}
 		_, _, closed, err := d.send(wire)
 		if err != nil {
 			t.Fatalf("%v", err)
@@ -319,6 +328,30 @@ func TestC08Enum(t *testing.T) {
 			}
 		}
 	}
+}
+
+// TestC08EnumSlowSession: sessions wait for their continuation while real time passes (16.5 s in quick -
+// longer than the read deadline the server arms - and 65 s in thorough), other sessions come and go on the
+// connection, then the waiting sessions are continued, or a used number is replayed in one of them.
+func TestC08EnumSlowSession(t *testing.T) {
+	pause := 16500
+	if os.Getenv("VERIF_TIER") == "thorough" {
+		pause = 65000
+	}
+	c := c08Case{Steps: []c08Step{
+		{Session: 1, Seq: 1, Type: 1, Reply: true, Cont: true, Status: 4},
+		{Session: 2, Seq: 1, Type: 1, Reply: true, Cont: true, Status: 5},
+		{Session: 3, Seq: 1, Type: 2, Reply: true, Cont: false, Status: 1},
+		{Session: 4, Seq: 1, Type: 2, Reply: true, Cont: false, Status: 1, PauseMs: pause / 2},
+		{Session: 5, Seq: 1, Type: 3, Reply: true, Cont: false, Status: 1, PauseMs: pause / 2},
+		{Session: 1, Seq: 3, Type: 1, Reply: true, Cont: true, Status: 5},
+		{Session: 1, Seq: 5, Type: 1, Reply: true, Cont: false, Status: 1},
+		{Session: 6, Seq: 1, Type: 1, Reply: true, Cont: false, Status: 2},
+		{Session: 2, Seq: 1, Type: 1, Reply: true, Cont: false, Status: 1}, // replay in a session that has waited all along
+		{Session: 2, Seq: 3, Type: 1, Reply: true, Cont: false, Status: 1},
+	}}
+	runC08(t, c)
+	classifyC08(c)
 }
 
 func TestC08Regress(t *testing.T) {
